@@ -179,4 +179,6 @@ def c17d(prog, R):
                         ok = True
         r.check(ok, "%s|extra_blob_files reach with_merge(new_blob_files)" % name,
                 "blob files created for filter replacements do not enter the published version", f2.where())
-    r.floor(7)
+    from rules.props import c08
+    c08.with_merge_guards(prog, r)
+    r.floor(11)
